@@ -32,9 +32,10 @@ PATTERNS = [
     r"oth",                       # matches 'other.zo' as a prefix only
     r"(?P<name>[a-z]+)_l",        # prefix of 'work_log.zo'
     r"(?P<name>[a-z]+)(?P<opt>_zzz)?\.zo",   # an optional group that takes no part in the match
+    r"(?P<name>[a-z]*)_log\.zo",             # a group that takes part in the match and may capture nothing
 ]
 TARGETS = ["notes.zo", "20240304.zo", "work_log.zo", "sub/new/deep.zo", "noext", "other.zo", "20241399.zo",
-           "20240131.zo", "20240430.zo", "20240229.zo"]
+           "20240131.zo", "20240430.zo", "20240229.zo", "_log.zo"]
 VARMAPS = [{}, {"name": "given"}, {"date": "20240102"}, {"date": "20241231"},
            {"name": "R&D <a> 'q' \"dq\" {x}"}]  # a value is written as it is, whatever characters it has
 
